@@ -429,6 +429,52 @@ fn large_header_readers(run: &Run) {
     run.set("large_header_grid", json!({"fields": ["fee_pool", "fee_multiplier", "dosc_speed"], "values": values.iter().map(|v| v.to_string()).collect::<Vec<_>>(), "covenants_per_point": 5}));
 }
 
+/// Coins of value zero are coins like any other: spending one needs its covenant's approval (the marker a faucet leaves behind
+/// is such a coin).  One zero-valued coin per family, spent next to an ordinary coin, with and without its covenant attached.
+fn zero_valued_coins(run: &Run, fams: &[Family]) {
+    let w = world_mel(NetID::Custom02, 10_000_000, 0);
+    let g = w.genesis.clone().seal(None);
+    let mut u = g.next_unsealed();
+    let mut outs: Vec<_> = fams.iter().map(|f| out(addr_of(&f.bytes), 0, Denom::Mel)).collect();
+    outs.push(out_t(10_000_000, Denom::Mel));
+    let fund = tx_t(TxKind::Normal, vec![CoinID::zero_zero()], outs, 0, vec![0x5a]);
+    if guard(|| u.apply_tx(&fund)).map(|r| r.is_err()).unwrap_or(true) {
+        run.outcome("zero-valued-coins:funding-not-accepted");
+        return;
+    }
+    let s1 = u.seal(None);
+    let lh = s1.header();
+    let st = s1.next_unsealed();
+    let carrier = fund.output_coinid(fams.len() as u8);
+    let carrier_cdh = CoinDataHeight { coin_data: fund.outputs[fams.len()].clone(), height: BlockHeight(1) };
+    let true_cov = Covenant::from_ops(&[pi(1)]).to_bytes();
+    for (i, f) in fams.iter().enumerate() {
+        let id = fund.output_coinid(i as u8);
+        let cdh = CoinDataHeight { coin_data: fund.outputs[i].clone(), height: BlockHeight(1) };
+        for (variant, covs) in [("covenant attached", vec![f.bytes.clone(), true_cov.clone()]), ("covenant not attached", vec![true_cov.clone()])] {
+            for zero_first in [true, false] {
+                let inputs = if zero_first { vec![(id, cdh.clone()), (carrier, carrier_cdh.clone())] } else { vec![(carrier, carrier_cdh.clone()), (id, cdh.clone())] };
+                let mut tx = mktx(TxKind::Normal, inputs.iter().map(|x| x.0).collect(), vec![out_t(10_000_000, Denom::Mel)], 0, covs.clone(), PREIMAGE.to_vec());
+                let k = if f.name.starts_with("legacy") { 0 } else { 1 };
+                tx.sigs = vec![key(k).1.sign(&tx.hash_nosigs().0).into()];
+                run.transition();
+                let (exp, why) = expected(&tx, &inputs, lh);
+                let mut s2 = st.clone();
+                let got = guard(|| s2.apply_tx(&tx));
+                run.validated();
+                let what = format!("zero-valued coin under {} ({}, {})", f.name, variant, if zero_first { "first input" } else { "second input" });
+                match got {
+                    Ok(Ok(())) if !exp => run.violation("C04", "spent-without-approval/zero-valued-coin".into(), format!("{}: spent although {}", what, why), json!({"family": f.name, "variant": variant, "zero_first": zero_first, "tx": tx_json(&tx)})),
+                    Ok(Err(e)) if exp => run.violation("C04", "approved-spend-rejected/zero-valued-coin".into(), format!("{}: {}", what, e), json!({"family": f.name, "variant": variant, "zero_first": zero_first, "tx": tx_json(&tx)})),
+                    Ok(Ok(())) => run.outcome("zero-valued-coin:accepted-as-expected"),
+                    Ok(Err(_)) => run.outcome("zero-valued-coin:rejected-as-expected"),
+                    Err(_) => run.outcome("zero-valued-coin:panic(reported under C09)"),
+                }
+            }
+        }
+    }
+}
+
 pub fn run(run: &Run) {
     let thorough = run.thorough();
     let fams = families();
@@ -511,6 +557,7 @@ pub fn run(run: &Run) {
     }
     genesis_spends(run, &fams);
     large_header_readers(run);
+    zero_valued_coins(run, &fams);
     let progs = program_families(run, if thorough { 4 } else { 3 });
     run.states_add(progs);
     run.set("environment_reading_programs", json!(progs));
